@@ -405,7 +405,9 @@ func enterLeaveSys() *sys {
 		ev("Create(ENTER,occupant)", func() *traits.EnterLeaveEvent {
 			return &traits.EnterLeaveEvent{Direction: traits.EnterLeaveEvent_ENTER, Occupant: &traits.EnterLeaveEvent_Occupant{Name: "o", Ids: map[string]string{"k": "v"}}}
 		}),
-		ev("Create(LEAVE)", func() *traits.EnterLeaveEvent { return &traits.EnterLeaveEvent{Direction: traits.EnterLeaveEvent_LEAVE} }),
+		ev("Create(LEAVE)", func() *traits.EnterLeaveEvent {
+			return &traits.EnterLeaveEvent{Direction: traits.EnterLeaveEvent_LEAVE}
+		}),
 		{name: "ResetTotals()", run: func(m *mon, _ context.Context) { el.ResetTotals() }},
 		{name: "Get()", readonly: true, run: func(m *mon, _ context.Context) { x, _ := el.GetEnterLeaveEvent(); m.reg("GetEnterLeaveEvent()", x) }},
 		{name: "Pull()", readonly: true, run: func(m *mon, ctx context.Context) {
